@@ -139,9 +139,36 @@ def _shared(S, d):
     return o
 
 
+_NARROW: dict = {}
+
+
+def _narrow(S, which):
+    """User subclasses whose __init__ takes the text only (and asks for strict validation itself); one per `which`
+    so that every descriptor meets a class the library has not seen before in this process."""
+    with _SHARED_LOCK:
+        if which not in _NARROW:
+            class NarrowIBAN(S.IBAN):
+                def __init__(self, iban):
+                    super().__init__(iban, validate_bban=True)
+
+            NarrowIBAN.__name__ = NarrowIBAN.__qualname__ = f"NarrowIBAN_{which}"
+            _NARROW[which] = NarrowIBAN
+        return _NARROW[which]
+
+
 def _dispatch(S, d, keep):
     fn = d["fn"]
     kw = d.get("kw", {})
+    if fn == "narrow_subclass":
+        cls = _narrow(S, d["which"])
+        how = d["how"]
+        if how == "generate":
+            return cls.generate("DE", bank_code="37040044", account_code="532013000")
+        if how == "from_bban":
+            return cls.from_bban("DE", "370400440532013000")
+        if how == "random":
+            return cls.random("DE", random=__import__("random").Random(5))
+        return cls("DE89370400440532013000")
     if fn == "shared_validate":
         return _shared(S, d).validate(**kw)
     if fn == "shared_read":
